@@ -138,8 +138,11 @@ func c18Compare(st *c18Stats, name string, exec func(kind string) c18Obs) *engin
 	a := exec("A")
 	sites := end()
 	st.execs.Add(1)
+	// "repeat": the same node runs the transition once more right after a run whose branch was thrown
+	// away (a simulation, an optimistic execution that was aborted): whatever the first run left in
+	// process memory is still there
 	end = c18MapBegin(nil)
-	b := exec("again")
+	b := exec("repeat")
 	end()
 	st.execs.Add(1)
 	if d := a.diff(b); d != "" {
@@ -386,8 +389,14 @@ func (y *c18L2Sys) Step(s *c18L2State, l engine.Letter) (*c18L2State, string, *e
 		} else {
 			ctx, _ = s.ctx.CacheContext()
 		}
-		w.K.ExecutorChangePlans = world.ClonePlans(s.plans)
-		defer func() { w.K.ExecutorChangePlans = map[uint64]opchildtypes.ExecutorChangePlan{} }()
+		// the plan table lives in the keeper's memory, not in the store: it is set from the state before
+		// a run, except for the immediate repeat, which inherits what run A left behind
+		if kind != "repeat" {
+			w.K.ExecutorChangePlans = world.ClonePlans(s.plans)
+		}
+		if kind != "A" {
+			defer func() { w.K.ExecutorChangePlans = map[uint64]opchildtypes.ExecutorChangePlan{} }()
+		}
 		var o c18Obs
 		ok := false
 		switch op.kind {
